@@ -108,6 +108,8 @@ pub struct Driver {
     pub op_trace: Vec<String>,
     /// probability (percent) that a peer feed consists of several concatenated frames
     pub multi_frame_pct: u64,
+    /// an `Any`-role object may open its next connection from the other side (server after client, client after server)
+    pub path_flip: bool,
 }
 
 const TOPICS: [&str; 3] = ["a", "b", "c/d"];
@@ -138,6 +140,7 @@ impl Driver {
             cut_rng: Rng::new(seed ^ 0xC0FFEE),
             op_trace: Vec::new(),
             multi_frame_pct: 0,
+            path_flip: true,
         }
     }
     fn bump(&mut self, k: &str) {
@@ -556,7 +559,7 @@ impl Driver {
             let v = match self.r.below(10) {
                 0 => self.r.range(1, 4) as u32,
                 1..=6 => self.r.range(5, 40) as u32,
-                _ => *self.r.pick(&[60u32, 100, 268_435_455]),
+                _ => *self.r.pick(&[60u32, 100, 127, 128, 130, 131, 133, 136, 140, 268_435_455]),
             };
             ps.push(p_u32(P_MPS, v));
         }
@@ -963,6 +966,9 @@ impl Driver {
                 let c = self.r.below(100);
                 if c < 62 {
                     // new connection
+                    if self.path_flip && self.sc.role == Role::Any && self.sc.ver != LVer::Undetermined && self.model.connections > 0 && self.r.below(4) == 0 {
+                        self.sc.as_client = !self.sc.as_client;
+                    }
                     if self.sc.as_client {
                         let p = self.connect_pkt();
                         self.send(p);
